@@ -90,3 +90,90 @@ Fixpoint set_nth (i : nat) (x : N) (l : str) : str :=
   | _ :: l', O => x :: l'
   | y :: l', S i' => y :: set_nth i' x l'
   end.
+
+(* ---- the cookie path: CookieStore.LoadSession (cookie_store.go:141-154) --------------------------
+   LoadSession takes req.Cookie(s.Name) and hands its Value, untouched, to UnmarshalSession. What
+   net/http (go1.23.5) makes of the `Cookie:` header lines is modelled concretely after
+   net/http/cookie.go:333-366 (readCookies), 516-528 (parseCookieValue), 471-473, request.go:457-465
+   (Request.Cookie = first cookie of that name), net/textproto TrimString (space, tab, CR, LF):
+     every line is trimmed and cut at ';', every part is trimmed, cut at the first '=', the name is
+     trimmed and compared with the (valid, non-empty) name asked for; the value loses ONE pair of
+     surrounding double quotes and is dropped unless all its bytes are in 0x20..0x7e minus DQUOTE, ';' and
+     backslash;
+     a dropped cookie does not shadow a later one of the same name.
+   No percent-decoding, no case folding, no joining of cookies happens anywhere on this path. *)
+Definition is_ows (c : N) : bool := (c =? 32) || (c =? 9) || (c =? 10) || (c =? 13).
+
+Fixpoint trim_left (s : str) : str :=
+  match s with
+  | c :: s' => if is_ows c then trim_left s' else s
+  | [] => []
+  end.
+Fixpoint trim_right (s : str) : str :=
+  match s with
+  | [] => []
+  | c :: s' => match trim_right s' with
+               | [] => if is_ows c then [] else [c]
+               | r => c :: r
+               end
+  end.
+Definition trim (s : str) : str := trim_right (trim_left s).   (* textproto.TrimString *)
+
+(* strings.Cut at the first '=' : before, after (after = [] when there is no '=') *)
+Fixpoint cut_at (sep : N) (s : str) : str * str :=
+  match s with
+  | [] => ([], [])
+  | c :: s' => if c =? sep then ([], s') else let '(a, b) := cut_at sep s' in (c :: a, b)
+  end.
+
+Definition valid_cookie_value_byte (b : N) : bool :=
+  (32 <=? b) && (b <? 127) && negb (b =? 34) && negb (b =? 59) && negb (b =? 92).
+
+Definition strip_quotes (raw : str) : str :=
+  match raw with
+  | c :: r => match rev r with
+              | d :: m => if (c =? 34) && (d =? 34) then rev m else raw   (* len > 1, first and last DQUOTE *)
+              | [] => raw
+              end
+  | [] => raw
+  end.
+
+(* parseCookieValue(raw, true) *)
+Definition parse_cookie_value (raw : str) : option str :=
+  let v := strip_quotes raw in
+  if forallb valid_cookie_value_byte v then Some v else None.
+
+Definition cookie_of_part (name part : str) : option str :=
+  match trim part with
+  | [] => None
+  | p => let '(nm, val) := cut_at 61 p in
+         if str_eqb (trim nm) name then parse_cookie_value val else None
+  end.
+
+Fixpoint first_some {A B} (f : A -> option B) (l : list A) : option B :=
+  match l with
+  | [] => None
+  | x :: l' => match f x with Some y => Some y | None => first_some f l' end
+  end.
+
+(* req.Cookie(name).Value for a request whose Header["Cookie"] is [lines]; None = http.ErrNoCookie *)
+Definition cookie_lookup (name : str) (lines : list str) : option str :=
+  first_some (cookie_of_part name) (flat_map (fun l => split_on 59 (trim l)) lines).
+
+Inductive load_result (V : Type) := LNoCookie | LInvalid | LSession (v : V).
+Arguments LNoCookie {V}. Arguments LInvalid {V}. Arguments LSession {V}.
+
+Section Load.
+  Context {K V : Type}.
+  Variable openf : K -> str -> str -> option str.
+  Variable uncodec : str -> option V.
+  (* LoadSession: (nil, http.ErrNoCookie) / (nil, ErrInvalidSession) / (session, nil) *)
+  Definition load_session (m : dec_mode) (k : K) (name : str) (lines : list str) : load_result V :=
+    match cookie_lookup name lines with
+    | None => LNoCookie
+    | Some cv => match unmarshal openf uncodec m k cv with
+                 | None => LInvalid
+                 | Some v => LSession v
+                 end
+    end.
+End Load.
